@@ -251,3 +251,64 @@ def h_excl(h: H):
     lm_head, lm_put, now_head, lease = z3.Real("last_modified_seen_by_HEAD"), z3.Real("last_modified_when_the_PUT_landed"), z3.Real("clock_at_HEAD"), z3.Real("lease")
     h.ensure("LEMMA-EXCL:a-lock-is-taken-over-only-after-its-lease-lapsed",
              z3.Implies(z3.And(now_head - lm_head > lease, lm_put == lm_head), now_head - lm_put > lease))
+
+
+# ================================================================================================ C16 POWER-LOSS
+POWER_USES = ["DURABLE-WRITE:fsync(temp)-after-the-last-write-and-before-the-rename", "DURABLE-WRITE:no-write-to-the-target-outside-the-rename",
+              "DURABLE-WRITE:directory-fsync-after-the-rename", "DURABLE-DATA:fsync(temp)-after-the-writer-closed-and-before-the-rename",
+              "ORDER:new-metadata-file-written-before-the-pointer"]
+
+
+def h_powerloss(h: H):
+    """Lemma POWER-LOSS (C16).  T-os model of a journalling file system: a name space and file contents each exist twice, in the
+    page cache and on disk; fsync(fd) makes that inode's CONTENT durable as it is in the cache; a rename may reach the disk at any
+    later moment (at the latest with the directory fsync).  Invariant over final (non-temp) names:
+        DurInv :=  for every name n on disk:  the inode it names has complete content on disk.
+    Proved preserved by each step of the write protocol the cited obligations establish (temp file, full write, fsync(temp), rename,
+    directory fsync) and by the kernel persisting the name space at any moment; and for the pointer: when the name of the pointer
+    file reaches the disk, the metadata file it names is already on disk completely (ORDER + write_file returning only after its
+    directory fsync)."""
+    A = z3.ArraySort(INT, INT)
+    AB = z3.ArraySort(INT, B)
+    ns_c, ns_d = z3.Const("names_in_cache", A), z3.Const("names_on_disk", A)            # name -> inode, 0 = absent
+    comp_c, comp_d = z3.Const("content_complete_in_cache", AB), z3.Const("content_complete_on_disk", AB)
+    temp = z3.Const("is_temp_name", AB)
+    n, t, p, i = z3.Int("n"), z3.Int("temp_name"), z3.Int("final_name"), z3.Int("inode")
+    w = z3.Int("witness_name")
+
+    def durinv(nsd, cd):
+        x = z3.Select(nsd, w)
+        return z3.Implies(z3.And(z3.Not(z3.Select(temp, w)), x != 0), z3.Select(cd, x))
+    # cache-side companion: a final name never points (in the cache) at an inode whose content is not yet durable-complete
+    def cacheinv(nsc, cd):
+        x = z3.Select(nsc, w)
+        return z3.Implies(z3.And(z3.Not(z3.Select(temp, w)), x != 0), z3.Select(cd, x))
+    base = z3.And(durinv(ns_d, comp_d), cacheinv(ns_c, comp_d), i != 0)
+    # 1. create temp name for a new inode: only a temp name changes
+    h.ensure("LEMMA-POWER:creating-a-temp-file-preserves-the-invariants",
+             z3.Implies(z3.And(base, z3.Select(temp, t)), z3.And(durinv(ns_d, comp_d), cacheinv(z3.Store(ns_c, t, i), comp_d))))
+    # 2. writing content only changes the cache copy of the content: nothing in DurInv/CacheInv mentions it
+    # 3. fsync(fd of inode i) after the last write: its content on disk becomes what the cache has (complete)
+    h.ensure("LEMMA-POWER:fsync-of-the-completely-written-temp-file-preserves-the-invariants",
+             z3.Implies(z3.And(base, z3.Select(comp_c, i)), z3.And(durinv(ns_d, z3.Store(comp_d, i, z3.Select(comp_c, i))),
+                                                                  cacheinv(ns_c, z3.Store(comp_d, i, z3.Select(comp_c, i))))))
+    # 4. rename temp -> final ONLY after that fsync (DURABLE-WRITE / DURABLE-DATA): the final name now points at a durable-complete inode
+    h.ensure("LEMMA-POWER:rename-after-fsync-preserves-the-invariants",
+             z3.Implies(z3.And(base, z3.Select(temp, t), z3.Not(z3.Select(temp, p)), z3.Select(ns_c, t) == i, z3.Select(comp_d, i)),
+                        z3.And(durinv(ns_d, comp_d), cacheinv(z3.Store(z3.Store(ns_c, p, i), t, 0), comp_d))))
+    # 5. the kernel persists the name-space entry of ANY name at ANY time (and the directory fsync persists all of them)
+    h.ensure("LEMMA-POWER:persisting-a-name-at-any-moment-preserves-the-invariant",
+             z3.Implies(base, durinv(z3.Store(ns_d, n, z3.Select(ns_c, n)), comp_d)))
+    # 6. sanity: without the fsync before the rename the invariant is NOT preserved (the defect class of fsync-after-rename)
+    s = z3.Solver()
+    s.add(base, z3.Select(temp, t), z3.Not(z3.Select(temp, p)), z3.Select(ns_c, t) == i, z3.Not(z3.Select(comp_d, i)), w == p,
+          z3.Not(cacheinv(z3.Store(z3.Store(ns_c, p, i), t, 0), comp_d)))
+    h.ensure("LEMMA-POWER:sanity:rename-before-fsync-breaks-the-invariant", z3.BoolVal(s.check() == z3.sat))
+    # 7. pointer: write_file(metadata) returned (directory fsync done => the metadata name is on disk, complete) before the pointer's
+    #    temp file is even created (ORDER); nothing removes the metadata file; so whenever the pointer's name is on disk ...
+    meta, ptr = z3.Int("metadata_file_name"), z3.Int("pointer_file_name")
+    meta_dur_at_ptr_start = z3.And(z3.Select(ns_d, meta) != 0, z3.Select(comp_d, z3.Select(ns_d, meta)))
+    h.ensure("LEMMA-POWER:a-durable-pointer-names-a-durable-complete-metadata-file",
+             z3.Implies(z3.And(meta_dur_at_ptr_start, meta != ptr, z3.Not(z3.Select(temp, meta))),
+                        z3.And(z3.Select(z3.Store(ns_d, ptr, i), meta) != 0, z3.Select(comp_d, z3.Select(z3.Store(ns_d, ptr, i), meta)))))
+    h.cover("LEMMA-POWER:invariants-consistent", base)
